@@ -421,10 +421,21 @@ def case_arith(ctx, x, jit=None):
         arr[0] = c + r * ncol                             # idxs_ds[idx0] = idx_ds
         return raw(arr)
     put("store", store)
-    put("subidx", lambda: sval(upscale.subidx_2_idx(A, ncol, cs, cncol)))
-    put("ind8", lambda: bool(upscale.in_d8(A, B, ncol)))
-    put("d4", lambda: [sval(v) for v in dem._local_d4(A, B, ncol)])
-    put("d8idx", lambda: ints(core._d8_idx(A, (nrow, ncol))))
+    # private helpers are not API: a tree that has renamed / inlined one of them is not comparable at that site (the
+    # API-level comparison of the four dtypes in props/c16.py still covers the operation); counted, never a failure
+    absent = set()
+    for key, mod, attr in (("subidx", upscale, "subidx_2_idx"), ("ind8", upscale, "in_d8"), ("d4", dem, "_local_d4"), ("d8idx", core, "_d8_idx")):
+        if not hasattr(mod, attr):
+            absent.add(key)
+            ctx.count("m:arith:site-helper-absent-in-this-tree:" + attr)
+    if "subidx" not in absent:
+        put("subidx", lambda: sval(upscale.subidx_2_idx(A, ncol, cs, cncol)))
+    if "ind8" not in absent:
+        put("ind8", lambda: bool(upscale.in_d8(A, B, ncol)))
+    if "d4" not in absent:
+        put("d4", lambda: [sval(v) for v in dem._local_d4(A, B, ncol)])
+    if "d8idx" not in absent:
+        put("d8idx", lambda: ints(core._d8_idx(A, (nrow, ncol))))
     req = ("c16m_arith", {"w": w, "signed": sg, "n": n, "a": raw1(A), "b": raw1(B), "ncol": ncol, "dr": dr, "dc": dc,
                           "subncol": ncol, "cellsize": cs, "cncol": cncol, "r": r, "c": c})
 
@@ -479,9 +490,13 @@ def case_arith(ctx, x, jit=None):
             jm("absdiff_int", [tn(L["numba.TT"]), L["absdiff_jit"][0]], "abs(int(a) - int(b)) (form before 23a01f9)")
             jm("absdiff_i64", ["int64", L["absdiff_64"][0]], "abs(np.int64(a) - np.int64(b)) (dig_4connectivity)")
             spec(jit["absdiff_i64"][1] == abs(a - b), f"JIT: abs(np.int64(idx0) - np.int64(idx_ds)) = {jit['absdiff_i64'][1]} is not |{a} - {b}|")
-            jm("subidx", L["subidx_N"][0], "subidx_2_idx")
-            jm("ind8", bool(L["ind8"][0]), "in_d8")
-            if name == "uint64" and a + ncol + 1 >= 2 ** 53:
+            if "subidx" not in absent:
+                jm("subidx", L["subidx_N"][0], "subidx_2_idx")
+            if "ind8" not in absent:
+                jm("ind8", bool(L["ind8"][0]), "in_d8")
+            if "d4" in absent:
+                pass
+            elif name == "uint64" and a + ncol + 1 >= 2 ** 53:
                 # Numba compares the int64 list entries with the uint64 idx_ds through float64 (mixed-sign `==`):
                 # exact only below 2^53 cells, far beyond any raster that can be allocated - outside the model's claim
                 ctx.count("m:arith:jit-d4-uint64-beyond-2^53" + (":differs" if jit["d4"] != ["int64", L["d4_N"]] else ":same"))
@@ -494,15 +509,19 @@ def case_arith(ctx, x, jit=None):
         if ob["store"] != [L["store"][0], L["store.mv"][0]] or L["lin64"] != [a]:
             fs.append({"kind": "model", "what": f"{name}: from_array store: NumPy {ob['store']} != Lean {[L['store'][0], L['store.mv'][0]]} (lin64 {L['lin64']})"})
         spec(ob["store"] == [a, 2 ** w - 1], f"from_array store of cell {a} / of core._mv gives {ob['store']}")
-        model("subidx", L["subidx_P"][0], "subidx_2_idx")
+        if "subidx" not in absent:
+            model("subidx", L["subidx_P"][0], "subidx_2_idx")
+            spec(ob["subidx"] == (r // cs) * cncol + c // cs, f"subidx_2_idx({a}, {ncol}, {cs}, {cncol}) = {ob['subidx']}")
         if L["subidx_N"] != L["subidx_P"]:
             fs.append({"kind": "model", "what": f"{name}: subidx_2_idx differs between the two typing regimes in Lean"})
-        spec(ob["subidx"] == (r // cs) * cncol + c // cs, f"subidx_2_idx({a}, {ncol}, {cs}, {cncol}) = {ob['subidx']}")
-        model("ind8", bool(L["ind8"][0]), "in_d8")
         rb, cb = divmod(b, ncol)
-        spec(ob["ind8"] == (abs(rb - r) <= 1 and abs(cb - c) <= 1), f"in_d8({a}, {b}, {ncol}) = {ob['ind8']}")
+        if "ind8" not in absent:
+            model("ind8", bool(L["ind8"][0]), "in_d8")
+            spec(ob["ind8"] == (abs(rb - r) <= 1 and abs(cb - c) <= 1), f"in_d8({a}, {b}, {ncol}) = {ob['ind8']}")
         # _local_d4: ValueError of list.index <-> none
-        if isinstance(ob["d4"], str):
+        if "d4" in absent:
+            pass
+        elif isinstance(ob["d4"], str):
             if not ob["d4"].startswith("exc:ValueError") or L["d4_T.ok"] != [0]:
                 fs.append({"kind": "model", "what": f"{name}: _local_d4({a}, {b}, {ncol}) raised {ob['d4']}; Lean: ok={L['d4_T.ok']} {L['d4_T']}"})
             spec(not (x["kind2"] in ("diag", "pit")), f"_local_d4 raised {ob['d4']} for a diagonal step / pit inside the raster")
